@@ -518,28 +518,33 @@ func sameLen(a, b ssa.Value) bool {
 // not io.EOF (data arriving together with end-of-stream is a success); the
 // retry loop accumulates exactly what Read returned.
 func ruleReadNComplete(c *core.Ctx, rule string) {
-	fn := c.Func("type/basic", "", "ReadN")
+	ruleRetryLoop(c, rule, "ReadN", "Read")
+}
+
+// ruleRetryLoop checks ReadN (method "Read") or WriteN (method "Write").
+func ruleRetryLoop(c *core.Ctx, rule, fname, method string) {
+	fn := c.Func("type/basic", "", fname)
 	if fn == nil || len(fn.Params) != 3 {
-		c.Undecided(rule, "type/basic.ReadN", token.NoPos, "anchor not found")
+		c.Undecided(rule, "type/basic."+fname, token.NoPos, "anchor not found")
 		return
 	}
 	length := ssa.Value(fn.Params[2])
 	// delegation idiom
 	for _, call := range core.Calls(fn) {
 		if f := core.StaticCallee(call); f != nil && (core.FuncKey(f) == "io.ReadFull" || core.FuncKey(f) == "io.ReadAtLeast") {
-			c.Pass(rule, "type/basic.ReadN/delegates", call.Pos(), "delegates to "+core.FuncKey(f))
+			c.Pass(rule, "type/basic."+fname+"/delegates", call.Pos(), "delegates to "+core.FuncKey(f))
 			return
 		}
 	}
 	var read *ssa.Call
 	for _, call := range core.Calls(fn) {
 		cc := call.Common()
-		if cc.IsInvoke() && cc.Method.Name() == "Read" {
+		if cc.IsInvoke() && cc.Method.Name() == method {
 			read, _ = call.(*ssa.Call)
 		}
 	}
 	if read == nil {
-		c.Undecided(rule, "type/basic.ReadN", fn.Pos(), "unrecognised shape: no r.Read call and no delegation to io.ReadFull")
+		c.Undecided(rule, "type/basic."+fname, fn.Pos(), "unrecognised shape: no "+method+" call on the stream and no delegation to io.ReadFull")
 		return
 	}
 	var nRead, errV ssa.Value
@@ -571,7 +576,7 @@ func ruleReadNComplete(c *core.Ctx, rule string) {
 			}
 		}
 	}
-	c.Check(okAcc, rule, "type/basic.ReadN/accumulates", read.Pos(), "each Read fills buf[size:] and size grows by exactly what Read returned",
+	c.Check(okAcc, rule, "type/basic."+fname+"/accumulates", read.Pos(), "each "+method+" works on buf[size:] and size grows by exactly what it returned",
 		"the retry loop does not read into buf[size:] with size advanced by the returned count: fragments overwrite each other or leave gaps")
 	isSize := func(v ssa.Value) bool {
 		v = core.Canon(v)
@@ -613,10 +618,30 @@ func ruleReadNComplete(c *core.Ctx, rule string) {
 			ok = false
 		}
 	}
-	c.Check(ok, rule, "type/basic.ReadN/nil-only-when-complete", fn.Pos(), "nil is returned only across size == length (or !(size < length))",
-		"ReadN can return nil although fewer than length bytes were read: every decoder above it accepts truncated input")
-	// error only if short or not EOF
-	short := func(cm core.Cmp) (bool, bool) { t, f := complete(cm); return f, t }
+	c.Check(ok, rule, "type/basic."+fname+"/nil-only-when-complete", fn.Pos(), "nil is returned only across size == length (or !(size < length))",
+		fname+" can return nil although fewer than length bytes were transferred: a short read/write goes unnoticed (truncated input accepted / message cut on the wire)")
+	// error only if short or not EOF; "short" must be established on the size
+	// updated with this iteration's count (the loop condition tested the old size)
+	isNewSize := func(v ssa.Value) bool { return acc != nil && core.Canon(v) == ssa.Value(acc) }
+	short := func(cm core.Cmp) (bool, bool) {
+		if isNewSize(cm.X) && isLen(cm.Y) {
+			switch cm.Op {
+			case token.NEQ, token.LSS:
+				return true, false
+			case token.EQL, token.GEQ:
+				return false, true
+			}
+		}
+		if isLen(cm.X) && isNewSize(cm.Y) {
+			switch cm.Op {
+			case token.NEQ, token.GTR:
+				return true, false
+			case token.EQL, token.LEQ:
+				return false, true
+			}
+		}
+		return false, false
+	}
 	isErr := func(v ssa.Value) bool { return core.Canon(v) == errV }
 	isEOF := func(v ssa.Value) bool {
 		u, ok := core.Canon(v).(*ssa.UnOp)
@@ -636,8 +661,8 @@ func ruleReadNComplete(c *core.Ctx, rule string) {
 			ok = false
 		}
 	}
-	c.Check(ok, rule, "type/basic.ReadN/eof-with-data", fn.Pos(), "an error is returned only if the read is short or the stream error is not io.EOF",
-		"ReadN reports an error although all bytes arrived, when the last fragment comes together with io.EOF: a complete message at end of stream is rejected")
+	c.Check(ok, rule, "type/basic."+fname+"/eof-with-data", fn.Pos(), "an error is returned only if the read is short or the stream error is not io.EOF",
+		fname+" reports an error although all bytes were transferred, when the last fragment comes together with io.EOF: a complete message at end of stream is rejected")
 }
 
 // lastFieldStore returns the store into the same field (same root, same path)
